@@ -37,6 +37,11 @@ def gen_history(r, quick, ids):
             elif k < 0.20:
                 ops.append(r.choice([X.op_store_get(ids, frm, key), X.op_get_interchain(ids, frm, "chainZ:svcQ"),
                                      X.op_register_interchain(ids, frm, "chainZ:svcQ"), X.op_delete_interchain(ids, frm, "chainZ:svcQ")]))
+            elif k < 0.30:
+                # interchain events posted by the called contract itself or by a CROSS-INVOKED one (plugin contracts
+                # relay -> emitter): the sender's nonce is unrelated to the position in the block
+                ops.append(X.op_plugin(ids, r.choice(rich + [frm]), r.choice(["Emit", "EmitFail", "Relay", "Relay", "RelayDeep", "RelayIgnore", "RelayThenFail", "RelaySet"]),
+                                       r.choice(["chainA", "chainB", "chainC"]), key, r.randrange(200, 300)))
             elif k < 0.46:
                 ops.append(X.op_stub(ids, frm, c, r.choice(["set", "setobj", "del", "add", "addobj"]), key, r.randrange(100, 200)))
             elif k < 0.54:
@@ -65,7 +70,7 @@ def gen_history(r, quick, ids):
         frm = r.choice(list(level.keys()))
         views = [r.choice([X.op_store_set(ids, frm, "k1", 7), X.op_stub(ids, frm, "store", "add", "k2", 8),
                            X.op_transfer(frm, "u:0", "1"), X.op_ibtp_defect(frm, 1, "absent")])]
-    return dict(cfg=dict(admins=admins, gas=price, audit=False, bal="1000000000000000"), pre=pre, blocks=blocks, views=views)
+    return dict(cfg=dict(admins=admins, gas=price, audit=False, bal="1000000000000000", plugins=True), pre=pre, blocks=blocks, views=views)
 
 
 RESTART = "RESTART"
@@ -132,7 +137,8 @@ def corpus_histories(ids):
     f = lambda a, v: {"op": "fund", "acct": a, "amt": str(v)}
 
     def mk(pre, blocks, admins=4, gas=0, audit=False, **kw):
-        return dict(cfg=dict(admins=admins, gas=gas, audit=audit, bal="1000000000000000"), pre=pre, blocks=blocks, views=[], **kw)
+        return dict(cfg=dict(admins=admins, gas=gas, audit=audit, bal="1000000000000000", plugins=True), pre=pre, blocks=blocks, views=[], **kw)
+    P = lambda frm, m, ch, *a: X.op_plugin(ids, frm, m, ch, *a)
     tob = "1356:1356:0x00000000000000000000000000000000000000ff"
     tid = "1356:chainA:svc1-%s-1" % tob
     # IBTP to a service of the relay chain itself with audit on: fails after all writes, no revert
@@ -172,6 +178,16 @@ def corpus_histories(ids):
         mk([f("u:0", 10**12)],
            [[X.op_emit_bad_funcs(ids, "u:0")], [X.op_register_interchain(ids, "u:0", "chainZ:svcQ")], RESTART,
             [X.op_get_interchain(ids, "u:0", "chainA:nosuch"), X.op_register_interchain(ids, "u:0", "chainZ:svcQ"), X.op_get_interchain(ids, "u:0", "chainZ:svcQ")]]),
+        # an interchain event posted by a CROSS-INVOKED contract: the sender's nonce differs from the position of its
+        # transaction and a FAILED transaction sits at the position that equals the nonce (contract error / fee);
+        # depth 2, an inner frame that fails, an outer frame that fails after the callee posted
+        mk([f("u:0", 10**12), f("u:2", 10**12), f("u:1", 1)],
+           [[X.op_store_set(ids, "u:2", "k1", 1), X.op_store_set(ids, "u:2", "k2", 2)],
+            [P("u:2", "Relay", "chainB"), P("u:0", "Emit", "chainA"), X.op_store_get_missing("u:0", "k77"), P("u:0", "Relay", "chainA"),
+             P("u:1", "Relay", "chainC"), X.op_store_set(ids, "u:2", "k3", 3)],
+            [X.op_store_get_missing("u:0", "k78"), P("u:1", "RelayDeep", "chainA"), P("u:2", "RelayDeep", "chainA"), P("u:0", "RelayIgnore", "chainB"),
+             P("u:2", "RelayThenFail", "chainC"), X.op_store_get_missing("u:2", "k79"), P("u:0", "RelaySet", "chainC", "k5", 9)]], gas=1),
+        mk([f("u:0", 10**12), f("u:1", 1)], [[X.op_store_set(ids, "u:1", "k1", 1), P("u:0", "Relay", "chainA")]], gas=1),
         # deletion marker: a SUCCESSFUL delete of a committed key, then a FAILED write of the same key in the same block, reads
         mk([f("u:0", 10**12), f("u:1", 1)],
            [[X.op_register_interchain(ids, "u:0", "chainZ:svcQ")],
